@@ -331,11 +331,29 @@ Definition gev_eqb (a b : gev) : bool :=
 Fixpoint lookup {A} (key : string) (t : list (string * A)) : option A :=
   match t with [] => None | (k, x) :: r => if String.eqb k key then Some x else lookup key r end.
 
-(* one (family, hook): the hand-written body has exactly the events of the source, in the same order *)
+(* Events whose position does not matter once the snapshot is taken: rebinding an attribute (undone by the rollback wherever
+   it stands) and calls of pure helpers.  In the methods called by update these are compared as a multiset; every other
+   event (raise, astype, in-place +=, subscript store, kernel and method calls, count increment) is compared in order.
+   update() itself is compared strictly: there the position of a binding relative to the snapshot matters. *)
+Definition gev_movable (g : gev) : bool :=
+  match g with
+  | GBind _ => true
+  | GCall m => existsb (String.eqb m) ["_define_lut_func"; "_memory_usage_coefficient"; "_get_dimension"; "get_template_index"]
+  | _ => false
+  end.
+Definition count_gev (g : gev) (l : list gev) : nat := List.length (filter (gev_eqb g) l).
+Definition same_multiset (l1 l2 : list gev) : bool :=
+  forallb (fun g => Nat.eqb (count_gev g l1) (count_gev g l2)) (l1 ++ l2).
+Definition events_agree (strict : bool) (l1 l2 : list gev) : bool :=
+  if strict then list_eqb gev_eqb l1 l2
+  else list_eqb gev_eqb (filter (fun g => negb (gev_movable g)) l1) (filter (fun g => negb (gev_movable g)) l2)
+       && same_multiset (filter gev_movable l1) (filter gev_movable l2).
+
+(* one (family, hook): the hand-written body has the events of the source, in the same order (see above) *)
 Definition tie_hook (f : family) (hook : string) : bool :=
   let key := resolve f hook in
   match body_of repaired key, lookup key source_order with
-  | Some body, Some evs => list_eqb gev_eqb (skeleton (acc_names f) body) evs
+  | Some body, Some evs => events_agree (String.eqb hook "update") (skeleton (acc_names f) body) evs
   | _, _ => false
   end.
 
@@ -436,6 +454,27 @@ Definition shape_ok (v : version) (f : family) (vl : valuation) : bool :=
   ok0 (nacc f) l && safe_order false l && (if v_first vl then allocs_all (nacc f) l else true).
 Definition all_shapes_ok (v : version) : bool :=
   forallb (fun f => forallb (shape_ok v f) all_valuations) all_families.
+
+(* ------------------------------------------------------------------ static summaries of a flat effect list *)
+Definition allocs_of (l : list effect) : list nat := flat_map (fun e => match e with Alloc k => [k] | _ => [] end) l.
+Definition writes_of (n : nat) (l : list effect) : list nat :=
+  flat_map (fun e => match e with HeapWrite k => [k] | Kernel _ => seq 0 n | _ => [] end) l.
+Definition bumps_of (l : list effect) : nat := List.length (filter (fun e => match e with Bump => true | _ => false end) l).
+Definition binds_origin (l : list effect) : bool := existsb (fun e => match e with Bind AOrigin => true | _ => false end) l.
+
+Fixpoint nodupb (l : list nat) : bool :=
+  match l with [] => true | x :: r => negb (existsb (Nat.eqb x) r) && nodupb r end.
+
+(* each accumulator is written exactly once, one count increment, allocation of cells 0..n-1 in order on a first call only *)
+Definition accum_ok (v : version) (f : family) (vl : valuation) : bool :=
+  let l := select vl (order v f) in
+  let ws := writes_of (nacc f) l in
+  nodupb ws && forallb (fun i => existsb (Nat.eqb i) ws) (seq 0 (nacc f)) && forallb (fun k => Nat.ltb k (nacc f)) ws
+  && Nat.eqb (bumps_of l) 1
+  && (if v_first vl then list_eqb Nat.eqb (allocs_of l) (seq 0 (nacc f)) && binds_origin l
+      else match allocs_of l with [] => true | _ => false end).
+Definition all_accum_ok (v : version) : bool := forallb (fun f => forallb (accum_ok v f) all_valuations) all_families.
+
 
 (* ------------------------------------------------------------------ the two-level state, batches, semantics *)
 Inductive dkind := DUint8 | DUintSmall | DUint64 | DIntSmall | DInt64 | DBool | DFloat.
@@ -706,6 +745,29 @@ Section Semantics.
         | _, ERejected _ _ => kept v f st1 r
         | _, _ => o :: kept v f st1 r
         end
+    end.
+
+
+  (* ---------------------------------------------------------------- the spec side: one-shot accumulation (Model/Accum.v) *)
+  (* accumulator k after the rows [rows], by Accum's definition: czero plus the sum of the contributions *)
+  Definition acc_of (k : nat) (rows : list R) : C := Accum.upd C R czero cplus (ccontrib k) czero rows.
+  Definition one_shot (f : family) (rows : list R) : list C := map (fun k => acc_of k rows) (seq 0 (nacc f)).
+  (* a batch whose row count is the number of its rows *)
+  Definition wf_batch (b : batch) : Prop := b_n b = Z.of_nat (List.length (b_rows b)).
+  Definition wf_op (o : hop) : Prop :=
+    match o with HUpdate b | HProcess b => wf_batch b | HRun bs => Forall wf_batch bs | HCompute => True end.
+  (* the rows accumulated by one call / by a history: those of the accepted batches, in order *)
+  Definition rows_of_op (f : family) (st : ostate) (o : hop) : list R :=
+    match o with
+    | HUpdate b => match snd (update repaired f st b) with Accepted => b_rows b | Rejected _ => [] end
+    | HProcess b => match snd (process repaired f st b) with Accepted => b_rows b | Rejected _ => [] end
+    | HRun bs => List.concat (map b_rows (accepted_prefix repaired f st bs))
+    | HCompute => []
+    end.
+  Fixpoint rows_of_hist (f : family) (st : ostate) (h : list hop) : list R :=
+    match h with
+    | [] => []
+    | o :: r => rows_of_op f st o ++ rows_of_hist f (fst (apply_op repaired f st o)) r
     end.
 
   (* construction parameters of the object *)
